@@ -37,7 +37,11 @@ def main():
     readme = open(os.path.join(sd, 'README.txt')).read()
     san = ''
     import re
-    mm = re.search(r'-DCAT_UNSOLICITED_CMD_BUFFER_SIZE=(\d+)', readme + open(demo).read())
+    mm = None
+    for line in (readme + '\n' + open(demo).read()).splitlines():
+        if 'demo' in line and 'gcc' in line:
+            mm = mm or re.search(r'-DCAT_UNSOLICITED_CMD_BUFFER_SIZE=(\d+)', line)
+    mm = mm or re.search(r'-DCAT_UNSOLICITED_CMD_BUFFER_SIZE=(\d+)', open(demo).read())
     if mm:
         san += ' -DCAT_UNSOLICITED_CMD_BUFFER_SIZE=%s' % mm.group(1)
 
